@@ -6,6 +6,5 @@ CONSTANTS
   CrashAnywhere = TRUE
   Defects = {}
   KeepHist = FALSE
-INVARIANTS ObsFaultyKeepsPrevious ObsOthersPreviousOrNew ObsValidIndexEntriesApplied ObsFaultyIndexNotApplied ObsDiskAlwaysComplete ObsRestartUsable ObsMatchesModel FaultyKeepsPrevious OthersPreviousOrNew ValidIndexEntriesApplied DiskAlwaysComplete RestartUsable
 POSTCONDITION TraceAccepted
 CHECK_DEADLOCK FALSE
